@@ -160,7 +160,6 @@ Definition gt_count_ok (v : chainview) (has_gt : bool) : bool :=
 Definition two64 : N := 18446744073709551616.
 Definition SITE_ADD : N := 1.          (* u64 `+` in a debug build *)
 Definition SITE_TREASURY : N := 2.     (* `.. + cv.total_payout_treasury - cv.total_payout_atr` underflows *)
-Definition SITE_BUNDLE_TS : N := 3.    (* assert!(current_timestamp > previous_block_timestamp) *)
 Definition SITE_GT_IN_TXPOOL : N := 4. (* panic!("golden tickets should be in gt collection") *)
 Definition SITE_SUPPLY : N := 5.       (* panic!("cannot continue with invalid total supply") *)
 
@@ -462,7 +461,8 @@ Section Producer.
              (stake : option tx) (order : list N) : res (bundled * mpool) :=
     let v := view (n_chain n) in
     let pts := match v_tip v with Some p => par_ts p | None => 0 end in
-    if negb (pts <? ts) then Panic SITE_BUNDLE_TS else
+    (* current_timestamp <= previous_block_timestamp: `return None` (fix f62222f; an assert! before) *)
+    if negb (pts <? ts) then Ok (GateClosed, m) else
     match can_bundle n m ts (is_some gt) with
     | None => Ok (GateClosed, m)
     | Some _ =>
